@@ -6,7 +6,8 @@ from common import TranslatorAbort
 STATIC = ["Base/Syntax.v", "Model/PyNum.v", "Model/IR.v", "Model/VM.v", "Model/Elab.v", "Model/Lower.v", "Spec/RefSem.v", "Proofs/OpsAgree.v",
           "Proofs/LowerExprProofs.v", "Proofs/ElabExprProofs.v", "Proofs/ReturnExprProofs.v", "Proofs/CallAgreeProofs.v", "Proofs/ReturnExprExample.v", "Harness/FragLib.v",
           "Proofs/LowerStmtProofs.v", "Proofs/ElabStmtProofs.v", "Proofs/StraightLineProofs.v", "Proofs/StraightLineExample.v", "Harness/FragLib2.v", "Proofs/FlowLowerProofs.v", "Proofs/FlowFuncProofs.v", "Harness/FlowLib.v",
-          "Proofs/FlowElabProofs.v", "Proofs/FlowTableProofs.v", "Proofs/FlowSimProofs.v", "Proofs/FlowSimExample.v", "Harness/FlowLib2.v"]
+          "Proofs/FlowElabProofs.v", "Proofs/FlowTableProofs.v", "Proofs/FlowSimProofs.v", "Proofs/FlowSimExample.v", "Harness/FlowLib2.v",
+          "Proofs/LoopLowerProofs.v", "Proofs/LoopElabProofs.v", "Proofs/LoopSimProofs.v", "Proofs/LoopSimExample.v", "Harness/LoopLib.v"]
 
 
 def gen_programs(ctx, n):
@@ -147,6 +148,61 @@ def conditional_programs(ctx, n):
     return out
 
 
+def loop_programs(ctx, n):
+    """functions with while loops at the top level (between declarations, assignments and conditionals): a counter declared before the loop,
+    a pure condition on it, a body of assignments and nested conditionals that does not assign the counter, the increment last -- the fragment
+    of theorem C01_loop_functions_partial"""
+    from nslgen import Module, Global, Func, Arg, Block, Ret, B, V, Decl, ES, A, If, While, I
+    rng = ctx.rng
+    out = []
+    for k in range(n):
+        g = gentyped.TGen(rng, floats=(k % 3 != 0), arrays=False, structs=False, calls=False, side_effects=False, max_depth=2)
+        genv = gentyped.Env(); genv.vars = {"g0": "int", "g1": "float"}
+        params = [("int", "a"), ("float", "b"), ("int", "c")][: rng.choice([2, 3])]
+        env = gentyped.Env(genv); env.bounds = {}
+        for t, nm in params:
+            env.vars[nm] = t
+        counters = set()
+        def assign():
+            t = rng.choice(["int", "float"]) if k % 3 != 0 else "int"
+            cands = [nm for nm, ty in env.all().items() if ty == t and nm not in counters]
+            return ES(A(V(rng.choice(cands)), tg_expr(g, env, t), rng.choice(["=", "=", "+="])))
+        def branch(depth):
+            stmts = []
+            for _ in range(rng.choice([1, 2])):
+                stmts.append(cond(depth - 1) if depth > 0 and rng.random() < 0.3 else assign())
+            return Block(stmts)
+        def cond(depth):
+            return If(tg_expr(g, env, "int"), branch(depth), branch(depth) if rng.random() < 0.5 else None)
+        body = []
+        nloops = 0
+        for q in range(rng.choice([2, 3, 4])):
+            r_ = rng.random()
+            if r_ < 0.25:
+                t = rng.choice(["int", "float"]) if k % 3 != 0 else "int"
+                x = "v%d" % q
+                body.append(Decl(t, x, tg_expr(g, env, t) if rng.random() < 0.7 else None)); env.vars[x] = t
+            elif r_ < 0.45:
+                body.append(cond(1))
+            elif r_ < 0.6:
+                body.append(assign())
+            else:
+                i = "i%d" % q
+                body.append(Decl("int", i, I(0))); env.vars[i] = "int"; counters.add(i)
+                bound = rng.choice([I(2), I(3), B("%", B("*", V("a"), V("a")), I(4)), I(0)])
+                inner = [assign() if rng.random() < 0.6 else cond(1) for _ in range(rng.choice([1, 2]))]
+                body.append(While(B("<", V(i), bound), Block(inner + [ES(A(V(i), B("+", V(i), I(1))))])))
+                nloops += 1
+        rt = rng.choice(["int", "float"]) if k % 3 != 0 else "int"
+        body.append(Ret(tg_expr(g, env, rt)))
+        m = Module([Global("int", "g0"), Global("float", "g1"), Func("f0", [Arg(t, nm) for t, nm in params], rt, Block(body), export=True)])
+        calls = [{"fn": "f0", "args": {nm: (rng.randrange(-6, 9) if t == "int" else rng.choice([0.5, -1.25, 3.0, 0.1, 7.5, -0.3])) for t, nm in params},
+                  "globals": {"g0": rng.randrange(-4, 7), "g1": rng.choice([0.25, -2.0, 1.1])} if c == 0 else {}, "read_globals": ["g0", "g1"]} for c in range(3)]
+        text, _ = nslgen.render(m, ["canonical", "dense", "wild", "lines"][k % 4], rng)
+        out.append((m, calls, text))
+    return out
+
+
 def conversion_programs(ctx, n):
     """functions in which a float variable (local, parameter, global) is initialised or assigned from an INT expression -- the compiler accepts this
     and inserts no cast -- and is then divided / multiplied / compared as a float.  The source says the variable is a float, so the specification side
@@ -259,6 +315,8 @@ def run(ctx):
     progs = progs + straight_programs(ctx, 60 if ctx.tier == "quick" else 1500)
     flow_from = len(progs)
     progs = progs + conditional_programs(ctx, 60 if ctx.tier == "quick" else 1500)
+    loop_from = len(progs)
+    progs = progs + loop_programs(ctx, 50 if ctx.tier == "quick" else 1200)
     conv_from = len(progs)
     progs = progs + conversion_programs(ctx, 40 if ctx.tier == "quick" else 600)
     jobs = [vmcases.job(text, calls, optimize=False) for (m, calls, text) in progs]
@@ -270,6 +328,8 @@ def run(ctx):
         d, e = vmcases.case_block(k, m, r, calls, with_ir=(k < conv_from))
         if k >= conv_from:
             pass
+        elif k >= loop_from:
+            e = "(%s + 1000 * (300000000 + loop_case M_%d))" % (e, k)
         elif k >= flow_from:
             e = "(%s + 1000 * (200000000 + flow_case2 M_%d))" % (e, k)
         elif k >= straight_from:
@@ -285,6 +345,7 @@ def run(ctx):
     bad_spec, bad_model = [], []
     frag = {"functions": 0, "inside_proved_fragment": 0, "literal_test_passed": 0}
     sfrag = {"functions": 0, "inside_proved_fragment": 0, "literal_test_passed": 0, "lowered_ir_also_in_forwarding_fragment": 0}
+    lfrag = {"functions": 0, "inside_end_to_end_fragment_literals_exact": 0, "of_which_with_a_loop": 0}
     ffrag = {"functions": 0, "inside_lowering_fragment": 0, "of_which_with_a_conditional": 0, "inside_end_to_end_fragment_literals_exact": 0}
     for x, c in zip(meta, codes):
         if c is None:
@@ -292,7 +353,10 @@ def run(ctx):
         if c >= 1000:
             fc = c // 1000
             c = c % 1000
-            if fc >= 200000000:
+            if fc >= 300000000:
+                fc -= 300000000
+                lfrag["functions"] += fc // 10000; lfrag["inside_end_to_end_fragment_literals_exact"] += (fc // 100) % 100; lfrag["of_which_with_a_loop"] += fc % 100
+            elif fc >= 200000000:
                 fc -= 200000000
                 ffrag["functions"] += fc // 1000000; ffrag["inside_lowering_fragment"] += (fc // 10000) % 100
                 ffrag["of_which_with_a_conditional"] += (fc // 100) % 100; ffrag["inside_end_to_end_fragment_literals_exact"] += fc % 100
@@ -319,12 +383,13 @@ def run(ctx):
                        "assignment, ++/--, if/else, for/while/do with break/continue, early return, overloaded and recursive helper calls) in four layouts, three "
                        "invocations each with random arguments and globals; the real IR is dumped and (i) compared for equality with the lowering model's IR, "
                        "(ii) executed by the VM model, (iii) the source is executed by the reference semantics; all three compared with the real VM's results inside Coq. "
-                       "Every program is distinct (by text) and counted non-trivial (contains control flow or calls). Plus modules of functions with nested if / if-else statements over assignments (the fragment of the conditional-lowering theorem), of straight-line functions (declarations, assignments, return), of functions in which float variables are initialised / assigned from int expressions (no cast is inserted; the specification is given the explicit conversion) and of functions `return <pure scalar expression>;` "
+                       "Every program is distinct (by text) and counted non-trivial (contains control flow or calls). Plus modules of functions with nested if / if-else statements over assignments (the fragment of the conditional-lowering theorem), of functions with while loops at the top level (the fragment of the loop theorem), of straight-line functions (declarations, assignments, return), of functions in which float variables are initialised / assigned from int expressions (no cast is inserted; the specification is given the explicit conversion) and of functions `return <pure scalar expression>;` "
                        "(the fragment of the end-to-end theorem): for each, the boolean fragment test is evaluated inside Coq on the source AST and the same three-way comparison is made.")
     ctx.cov["samples"] = [{"source": t[:600], "calls": c, "impl": r["calls"]} for t, c, r in meta[:2]]
     stats["return_expression_functions"] = frag
     stats["straight_line_functions"] = sfrag
     stats["conditional_functions"] = ffrag
+    stats["loop_functions"] = lfrag
     ctx.extra["input_distribution"] = stats
     ctx.extra["disagreements_checked"] = len(codes)
     if bad_spec or direct_bad:
